@@ -1,28 +1,26 @@
 package sim
 
 import (
-	"encoding/json"
 	"fmt"
 	"os"
 	"testing"
 )
 
-func TestSmoke(t *testing.T) {
-	if os.Getenv("VERIF_SMOKE") == "" {
-		t.Skip()
+// TestSim is the single entry point of the simulator binary; VERIF_MODE selects what it does.
+func TestSim(t *testing.T) {
+	switch os.Getenv("VERIF_MODE") {
+	case "shard":
+		runShard(t)
+	case "replay":
+		runReplay(t)
+	case "props":
+		dumpProps()
+	case "minimize":
+		runMinimize(t)
+	case "":
+		t.Skip("set VERIF_MODE")
+	default:
+		fmt.Fprintln(os.Stderr, "unknown VERIF_MODE")
+		os.Exit(2)
 	}
-	bob := J{"@context": asCtx, "type": "Person", "id": "https://r.example/u/bob", "inbox": "https://r.example/u/bob/inbox"}
-	spec := &RunSpec{Property: "C09", World: WorldSpec{
-		Servers: []ServerSpec{{Host: "a.example", Social: true, Federating: true, Actors: []string{"alice"}, DeliverDepth: 2, ForwardDepth: 2}},
-		Remote:  []DocSpec{{ID: "https://r.example/u/bob", Doc: mustJSON(bob)}},
-	},
-		Requests: []ReqSpec{{ID: "r0", Server: "a.example", Kind: "postOutbox", Actor: "alice",
-			Body: mustJSON(J{"@context": asCtx, "type": "Note", "content": "hi", "to": []string{"https://r.example/u/bob"}, "bcc": "https://r.example/u/bob"})}},
-	}
-	res := Execute(t, spec)
-	for _, e := range res.Sim.Log {
-		b, _ := json.Marshal(e)
-		fmt.Println(string(b))
-	}
-	fmt.Println("verdict", res.Verdict, "steps", res.Steps, "harness", res.Harness, "viol", res.Viol, res.LogHash)
 }
